@@ -392,6 +392,21 @@ fn gen_path_text(rng: &mut Rng) -> String {
 }
 
 pub fn generate(sink: &mut Sink, rng: &mut Rng, n: u64) {
+    // tag keys that are prefixes of one another: existence, equality, prefix and comparison on a tag
+    // must look at the whole key (`a` is absent from tags ["ab:1"])
+    for key in ["a", "env", "k", "host"] {
+        for tags in [vec![format!("{key}b:1")], vec![format!("{key}x")], vec![format!("{key}:1")], vec![key.to_string()],
+                     vec![format!("{key}b:1"), format!("{key}:2")], vec![format!("x{key}:1")], vec![format!("{key}:")], vec![]] {
+            let ev = format!("{{ k:74616773 [ {} ] }}", tags.iter().map(|t| format!("b:{}", crate::wire::hex(t.as_bytes()))).collect::<Vec<_>>().join(" "));
+            for q in [format!("_exists_:{key}"), format!("_missing_:{key}"), format!("{key}:1"), format!("{key}:*"), format!("{key}:>0"),
+                      format!("{key}:[* TO *]"), format!("-{key}:1"), format!("{key}:1*")] {
+                if literal_ok(&q) {
+                    sink.emit("c31.match", &[hs(&q), ev.clone()]);
+                    sink.emit("o.c31", &["leaf".to_string(), hs(&q), ev.clone()]);
+                }
+            }
+        }
+    }
     // JIT path parser: fixed texts, then generated ones
     for p in PATHS {
         sink.emit("c31.path", &[hs(p)]);
@@ -467,7 +482,34 @@ pub fn generate(sink: &mut Sink, rng: &mut Rng, n: u64) {
             const SAFE: &[&str] = &["5", "10", "1.5", "abc", "b", "9", "0", "-1", "*", "foo", "z", "2", "prod", "dev", "y", "a", "100"];
             let lo = *rng.pick(SAFE);
             let hi = *rng.pick(SAFE);
-            let ev = show_value(&gen_event(rng));
+            let mut evv = gen_event(rng);
+            // boundary: the compared value IS one of the bounds half of the time (inclusive vs exclusive
+            // brackets only differ there)
+            if rng.chance(1, 2) {
+                let bound = if (rng.chance(1, 2) && lo != "*") || hi == "*" { lo } else { hi };
+                if bound != "*" {
+                    let bv = bound.parse::<i64>().map(Value::Integer).unwrap_or_else(|_| {
+                        bound.parse::<f64>().ok().and_then(|f| ordered_float::NotNan::new(f).ok()).map(Value::Float).unwrap_or_else(|| Value::from(bound))
+                    });
+                    if let Value::Object(m) = &mut evv {
+                        match attr {
+                            "@a" => { m.insert("a".into(), bv); }
+                            "@n" => { m.insert("n".into(), bv); }
+                            "host" | "message" | "status" => { m.insert(attr.into(), Value::from(bound)); }
+                            "k" | "env" => {
+                                let tag = Value::from(format!("{attr}:{bound}"));
+                                match m.get_mut("tags") {
+                                    Some(Value::Array(t)) => t.push(tag),
+                                    _ => { m.insert("tags".into(), Value::Array(vec![tag])); }
+                                }
+                            }
+                            _ => {}
+                        }
+                    }
+                    sink.count("c31:range_boundary_event");
+                }
+            }
+            let ev = show_value(&evv);
             let b = |x: bool| if x { "1".to_string() } else { "0".to_string() };
             // each bracket is inclusive or exclusive on its own (mixed brackets are accepted since /repo 21ebbb7)
             sink.emit("o.c31", &["range".to_string(), hs(attr), hs(lo), hs(hi), b(rng.chance(1, 2)), b(rng.chance(1, 2)), ev]);
